@@ -1229,6 +1229,20 @@ def c17_cases(tier, seed):
         keys += [rng.choice([".", "u", "p", "x"]), "Enter", "Enter"]
         chunks = [key_bytes(kk) for kk in keys]
         cases.append(Case(keys, mode="vi", timeout=0, prompt="> ", reads=2, chunks=chunks, cols=80, meta={}))
+    # vi operators with a LINE motion whose count reaches beyond the first / last line of a text of several lines
+    for k in range(max(6, n // 30)):
+        lines = [rand_text(rng, 1, 4, ["a", "b", " ", "é"]) for _ in range(rng.randint(2, 4))]
+        keys = []
+        for i, ln in enumerate(lines):
+            keys += list(ln) + (["C-v", "C-j"] if i + 1 < len(lines) else [])
+        keys += ["Esc"] + [rng.choice(["k", "j", "0", "$"]) for _ in range(rng.randint(0, 2))]
+        op = rng.choice(["d", "c", "y", "<", ">"])
+        keys += list(rng.choice(["", "2", "3", "9"])) + [op] + list(rng.choice(["", "2", "5", "99"])) + [rng.choice(["k", "-", "j", "+", "k", "-"])]
+        if op == "c":
+            keys += ["q", "Esc"]
+        keys += [rng.choice([".", "u", "p", "x"]), "Enter", "Enter"]
+        chunks = [key_bytes(kk) for kk in keys]
+        cases.append(Case(keys, mode="vi", timeout=0, prompt="> ", reads=2, chunks=chunks, cols=80, meta={}))
     # the candidate listing in a window about as narrow as the widest candidate (also narrowed by a resize while listing)
     for k in range(n // 10):
         mode = rng.choice(["emacs", "emacs", "vi"])
